@@ -226,14 +226,16 @@ class Scratch:
         recorded in the overlay log."""
         for ab in rx.get("abstract", []):
             ms2 = list(re.finditer(ab["open"], rest, re.S))
-            if len(ms2) != 1:
-                raise AnchorLost(f"slice region /{ab['open']}/ matched {len(ms2)} times in {sl['fn_anchor']}")
-            bo2 = ms2[0].end() - 1
-            if rest[bo2] != "{":
-                raise AnchorLost(f"slice region /{ab['open']}/ does not end at an opening brace")
-            be2 = match_brace(rest, bo2)
-            self.overlay_log.append(f"{sl['file']}: K-slice `{sl['name']}`: region /{ab['open']}/ ({rest[bo2:be2].count(chr(10))} lines) abstracted to `{ab['body']}`")
-            rest = rest[:bo2] + "{ " + ab["body"] + " }" + rest[be2:]
+            want = ab.get("count", 1)  # number of regions expected (all get the same abstraction)
+            if len(ms2) != want:
+                raise AnchorLost(f"slice region /{ab['open']}/ matched {len(ms2)} times in {sl['fn_anchor']} (expected {want})")
+            for m2 in reversed(ms2):
+                bo2 = m2.end() - 1
+                if rest[bo2] != "{":
+                    raise AnchorLost(f"slice region /{ab['open']}/ does not end at an opening brace")
+                be2 = match_brace(rest, bo2)
+                self.overlay_log.append(f"{sl['file']}: K-slice `{sl['name']}`: region /{ab['open']}/ ({rest[bo2:be2].count(chr(10))} lines) abstracted to `{ab['body']}`")
+                rest = rest[:bo2] + "{ " + ab["body"] + " }" + rest[be2:]
         return rest
 
     def add_slice(self, sl):
@@ -286,10 +288,13 @@ class Scratch:
                 # of rx["rest_of_fn_after"] (the tail expression included).  rx["abstract"]: code
                 # regions (brace-matched blocks opened at the unique match of `open`) whose body
                 # is replaced by `body` - an abstraction of that region, recorded in the overlay log
-                ms = list(re.finditer(rx["rest_of_fn_after"], body, re.S))
-                if len(ms) != 1:
-                    raise AnchorLost(f"slice anchor /{rx['rest_of_fn_after']}/ matched {len(ms)} times in {sl['fn_anchor']}")
-                rest = body[end_of_statement(body, ms[0].start()):len(body) - 1]
+                if rx["rest_of_fn_after"] is None:
+                    rest = body[1:len(body) - 1]  # the whole function body
+                else:
+                    ms = list(re.finditer(rx["rest_of_fn_after"], body, re.S))
+                    if len(ms) != 1:
+                        raise AnchorLost(f"slice anchor /{rx['rest_of_fn_after']}/ matched {len(ms)} times in {sl['fn_anchor']}")
+                    rest = body[end_of_statement(body, ms[0].start()):len(body) - 1]
                 rest = self._abstract_regions(rest, rx, sl)
                 stmts.append(LINE_COMMENT_RE.sub("", rest).strip())
                 continue
